@@ -324,7 +324,7 @@ pub fn table() -> Vec<Entry> {
     cross!(v, latd DomPair<MnU, HS>, latd DomPair<MnU, BS>, [delta, sym, ord], q, t3);
 
     // ---- UnionFind (receivers: forests reachable by unions; deltas: any edge list) -------------
-    own!(v, latd, UfH, p(3, 0, 2), p(4, 0, 3));
+    own!(v, latd, UfH, p(3, 0, 2), p(3, 0, 3));
     own!(v, latd, UfB, p(3, 0, 2), p(3, 0, 3));
     cross!(v, latd UfH, latd UfB, [delta, sym, ord], p(3, 0, 2), p(3, 0, 3));
     cross!(v, latd UfH, none UfV, [delta], p(3, 0, 2), p(3, 0, 3));
@@ -367,7 +367,7 @@ pub fn table() -> Vec<Entry> {
     // ---- two-level nestings ----------------------------------------------------------------------
     own!(v, latd, HM<HM<HS>>, p(2, 1, 2), p(2, 1, 2));
     own!(v, latd, WithTop<HM<HS>>, q, p(3, 2, 2));
-    own!(v, latd, Pair<VecUnion<MxU>, WithBot<HS>>, q, p(2, 2, 3));
+    own!(v, latd, Pair<VecUnion<MxU>, WithBot<HS>>, q, p(2, 1, 3));
     own!(v, latd, HM<WithBot<HS>>, q, p(3, 2, 2));
     own!(v, latd, HM<Pair<MxB, HS>>, p(2, 1, 2), q);
     own!(v, latd, VecUnion<HM<MxB>>, p(2, 1, 2), p(2, 1, 2));
